@@ -321,9 +321,9 @@ func GenInfo(env *Env, opt Options, iopt InfoOptions) *rapid.Generator[*InfoResu
 				fl = gtab.FeatureListInfo{}
 			}
 		case "features-large": // up to the 16-bit limit: 6+4+2*(0..2) bytes each
-			patterned(rapid.IntRange(1000, 5400).Draw(t, "nFeaturesLarge"), 2)
+			patterned(rapid.IntRange(1000, 5300).Draw(t, "nFeaturesLarge"), 2)
 		case "features-50k":
-			patterned(rapid.IntRange(4400, 4600).Draw(t, "nFeatures50k"), 2)
+			patterned(rapid.IntRange(4700, 4900).Draw(t, "nFeatures50k"), 2)
 		case "features-overflow":
 			patterned(rapid.IntRange(5600, 7000).Draw(t, "nFeaturesOvf"), 2)
 		case "feature-lookups-overflow":
